@@ -331,6 +331,10 @@ class Report:
         self.exhaustive = None
         self.known = load_known()
         self._n_replay = 0
+        # every finding listed for this property is announced on every run (whether or not this run's inputs hit it)
+        for k in self.known.get("known", []):
+            if k.get("property") == pid:
+                say(f"KNOWN-FINDING: property={pid} {k.get('what', '')}")
 
     def add_tlc(self, r):
         self.states += r.distinct
